@@ -1,0 +1,37 @@
+//go:build verif
+
+package quicmemberlist
+
+import (
+	"net"
+
+	"github.com/spikeekips/mitum/base"
+)
+
+// VerifMembersPool exposes the unexported membersPool to the runtime
+// monitors (hook H5). Every method passes straight through to the real one.
+type VerifMembersPool struct {
+	p *membersPool
+}
+
+func NewVerifMembersPool() *VerifMembersPool {
+	return &VerifMembersPool{p: newMembersPool()}
+}
+
+func (v *VerifMembersPool) Set(member Member) bool { return v.p.Set(member) }
+
+func (v *VerifMembersPool) Remove(k *net.UDPAddr) (bool, error) { return v.p.Remove(k) }
+
+func (v *VerifMembersPool) Get(k *net.UDPAddr) (Member, bool) { return v.p.Get(k) }
+
+func (v *VerifMembersPool) Exists(k *net.UDPAddr) bool { return v.p.Exists(k) }
+
+func (v *VerifMembersPool) MembersLen(node base.Address) int { return v.p.MembersLen(node) }
+
+func (v *VerifMembersPool) MembersLenOthers(node base.Address, addr *net.UDPAddr) (memberslen, others int, found bool) {
+	return v.p.MembersLenOthers(node, addr)
+}
+
+func (v *VerifMembersPool) Len() int { return v.p.Len() }
+
+func (v *VerifMembersPool) Traverse(f func(Member) bool) { v.p.Traverse(f) }
